@@ -10,7 +10,7 @@ THEOREMS = ["Mesa.Devs." + t for t in (
     "C14_clock_monotone", "C14_run_until_post", "C14_schedule_rejects_exactly", "C14_peek_is_execution_order",
     "C14_priority_order_generated", "C14_upfront_events_run_in_sorted_order", "C14_heapq_is_priority_queue",
     "C14_heap_refines_sorted_queue", "C14_spared_event_is_served", "C14_spared_event_is_served_rel",
-    "C14_spared_due_event_executed", "C14_execution_order")]
+    "C14_spared_due_event_executed", "C14_execution_order", "C14_collected_never_executes")]
 COUNTS = {"quick": 600, "thorough": 200000}
 TRUSTED = [
     "heapq: no longer assumed — Model/Heap.lean transcribes Lib/heapq.py (heappush/heappop/_siftdown/_siftup), Proofs/Heap.lean proves it a priority queue for any strict weak order, Proofs/DevsHeap.lean proves the model's sorted list a sound abstraction of the heap array, and every check compares the transcription's array layout with CPython's heapq (the C accelerator _heapq is what actually runs); trusted: that EventList reaches its list only through heappush / heappop / iteration (read off the source)",
